@@ -826,6 +826,42 @@ def special_pairwise(ctx, names, rng, npr, dz, terms, meta):
                 for j in range(i + 1, n):
                     terms.append(case_term(X0[i], X0[j], P, [(tag, float(M[i, j]))]))
                     meta.append((dict(api="pairwise_special_metric", metric=name, x=X0[i], y=X0[j], params=dict(z=dz)), [(name, tag, float(M[i, j]), okm)]))
+    # larger inputs (any size-dependent routing inside the pairwise driver must not change the values): 70..200 rows, entries compared
+    # with the registry function on sampled pairs, symmetry and zero diagonal on the whole matrix, X-vs-Y form as well
+    for name in ("hellinger", "poincare"):
+        if name not in names:
+            continue
+        for n in ((150,) if quick else (70, 129, 150, 200)):
+            d = rng.randint(3, 8)
+            if name == "poincare":
+                X = np.stack([gen_ball_pair(rng, npr, d, "random")[0] for _ in range(n)])
+            else:
+                X = f32(npr.randint(0, 9, size=(n, d)) + 1.0 * (npr.random((n, d)) < 0.3)); X[X.sum(axis=1) == 0, 0] = 1.0
+            X0 = X.copy()
+            desc = dict(api="pairwise_special_metric", metric=name, rows=n, X=X0[:6], note="first 6 of %d rows shown; generated from the run's seed" % n)
+            try:
+                M = np.asarray(D.pairwise_special_metric(X, metric=name), dtype=np.float64)
+                M2 = np.asarray(D.pairwise_special_metric(X, X[:5].copy(), metric=name), dtype=np.float64)
+            except Exception as e:   # noqa
+                ctx.fail("pairwise_special_metric:%s:raises" % name, "%s: %s" % (type(e).__name__, e), desc); continue
+            ctx.evaluations += 400
+            ctx.tag(("pairwise_large", name, n), ["pairwise_special_metric", "pairwise_many_rows"])
+            f = D.named_distances[name]
+            bad = None
+            if M.shape != (n, n) or M2.shape != (n, 5): bad = "shape %s / %s" % (M.shape, M2.shape)
+            elif np.abs(M - M.T).max() > 1e-6: bad = "not symmetric (max |D - D^T| = %.3g)" % np.abs(M - M.T).max()
+            elif np.abs(np.diag(M)).max() > 1e-3: bad = "diagonal not zero"
+            else:
+                for _ in range(400):
+                    i_, j_ = rng.randrange(n), rng.randrange(n)
+                    want = float(f(X0[i_], X0[j_]))
+                    if abs(M[i_, j_] - want) > 1e-5 + 1e-4 * abs(want) and not (i_ == j_ and M[i_, j_] ** 2 < 1e-5):
+                        bad = "entry (%d,%d) = %r, the registry function on the two rows gives %r" % (i_, j_, M[i_, j_], want); break
+                    if j_ < 5 and abs(M2[i_, j_] - want) > 1e-5 + 1e-4 * abs(want) and not (i_ == j_ and M2[i_, j_] ** 2 < 1e-5):
+                        bad = "X-vs-Y entry (%d,%d) = %r, the registry function gives %r" % (i_, j_, M2[i_, j_], want); break
+            if X.tobytes() != X0.tobytes(): bad = (bad or "") + " X modified in place"
+            if bad:
+                ctx.fail("pairwise_special_metric:%s:many_rows" % name, "%d rows: %s" % (n, bad), desc)
     # the callable path (sklearn pairwise_distances around a jitted closure with the keyword values): SEQUENCES of calls with the same
     # metric and parameter names but different parameter values (a value must not survive from an earlier call), incl. array-valued ones
     n, d = 4, 5
